@@ -20,10 +20,19 @@ EXPLANATION = (
     "feasible when the operand is the object itself (isinstance(other, K) evaluated against the MRO of every class "
     "using that __eq__, type(other) == type(self), other is self, other is None) the result is a comparison, never "
     "False / NotImplemented / None; a returned comparison that reads other.F lies on a path that took an isinstance / "
-    "type-equality test positively (or inside a try); the operand never stands in the class position of isinstance. "
+    "type-equality test positively (or inside a try); the operand never stands in the class position of isinstance; "
+    "(6) for every node / capability class the first provider of "
+    "__eq__, __ne__ and __hash__ along the MRO is a def of the package (which rules 1-5 read): a class decorator of the attrs / "
+    "dataclasses families (attr.s, attrs.define/frozen/mutable, dataclass; eq/cmp/auto_detect/frozen/hash/unsafe_hash and per-field "
+    "eq/compare keywords evaluated) that writes __eq__/__ne__/__hash__ over such a class is rejected unless the compared fields are "
+    "exactly the fields of self that to_string() / get_uri() is computed from and __hash__ is not set to None; a class-body assignment "
+    "to one of the three names is rejected unless it re-exports the def of a base class; any other class decorator on these classes "
+    "is an analysis error. "
     "Undecided: the values of the compared fields (that self.u really is the cap the node was made from), "
     "equality across different node classes for one cap, zope-interface adaptation, tests of __eq__ other than "
-    "isinstance / type equality / identity / None (paths through them are not judged for reflexivity).")
+    "isinstance / type equality / identity / None (paths through them are not judged for reflexivity); for an accepted generated "
+    "__eq__/__hash__ (fields exactly those of the cap string) hash equality with an equal object of ANOTHER cap class; methods "
+    "installed by metaclasses, setattr or decorators outside the attrs / dataclasses families.")
 TECHNIQUE = "static analysis: CFG path enumeration of __eq__/__ne__/__hash__ with normalised branch facts, MRO pairing, field-set inclusion, abstract evaluation of the type guard for other=self"
 
 NODE_IFACE_ROOT = "IFilesystemNode"
@@ -279,6 +288,182 @@ def cap_classes(idx):
     return sorted((ci for ci in m.classes.values() if ci.lookup("to_string") is not None), key=lambda c: c.qual)
 
 
+# ---------------------------------------------------------------- comparison methods made by class decorators
+_ATTRS_CLASSIC = {"attr.s", "attr.attrs", "attr.attributes", "attr.dataclass"}      # write __eq__/__ne__ over the class's own
+_ATTRS_DEFINE = {"attr.define", "attr.frozen", "attr.mutable", "attrs.define", "attrs.frozen", "attrs.mutable"}   # auto_detect
+_DATACLASS = {"dataclasses.dataclass"}
+_ATTRS_FIELD = {"attr.ib", "attr.attrib", "attr.attr", "attr.field", "attrs.field"}
+_DC_FIELD = {"dataclasses.field"}
+# class decorators known not to touch __eq__ / __ne__ / __hash__
+_HARMLESS_DECORATORS = {"zope.interface.implementer", "zope.interface.declarations.implementer", "zope.interface.provider",
+                        "zope.interface.implementer_only", "functools.total_ordering"}
+TRIO = ("__eq__", "__ne__", "__hash__")
+
+
+def dotted_in_module(m, e):
+    """Dotted name an expression denotes at module scope, the first component taken through the module's imports
+    (`attr.s`, `dataclasses.dataclass`, `zope.interface.implementer`); a module-local name stays bare; else None."""
+    p = attr_path(e)
+    if not p:
+        return None
+    head, _, rest = p.partition(".")
+    if head in m.imports:
+        head = m.imports[head]
+    return head + ("." + rest if rest else "")
+
+
+def const_kw(call, *names):
+    """(found, value) of the first keyword among `names` of a decorator / field call; the value must be a constant."""
+    if not isinstance(call, ast.Call):
+        return (False, None)
+    for k in call.keywords:
+        if k.arg is None:
+            raise AnalysisError("**kwargs in `%s`: what the decorator generates cannot be decided" % ast.unparse(call))
+        if k.arg in names:
+            if not isinstance(k.value, ast.Constant):
+                raise AnalysisError("`%s=%s` in `%s` is not a constant: what the decorator generates cannot be decided"
+                                    % (k.arg, ast.unparse(k.value), ast.unparse(call)))
+            return (True, k.value.value)
+    return (False, None)
+
+
+class Generated:
+    """What a class decorator of the attrs / dataclasses families writes into the class."""
+
+    def __init__(self, ci, dec, family, eq, hash_, fields):
+        self.ci, self.dec, self.family = ci, dec, family
+        self.eq = eq            # __eq__ written (attrs: together with __ne__)
+        self.ne = eq and family != "dataclass"
+        self.hash = hash_       # 'gen' (over the fields), 'none' (__hash__ = None) or 'keep'
+        self.fields = fields    # {'self.<name>'} the generated methods compare / hash
+
+    def what(self):
+        made = [n for n, on in (("__eq__", self.eq), ("__ne__", self.ne), ("__hash__", self.hash == "gen")) if on]
+        return "/".join(made) + (" (and __hash__ = None)" if self.hash == "none" else "")
+
+
+def generated_fields(idx, ci, family, auto_attribs):
+    """'self.<name>' for the fields of class ci (own body and decorated bases) that generated comparison methods use."""
+    out = set()
+    for k in reversed(ci.mro()):
+        if k is not ci and not any(g is not None for g in (generated_by(idx, k, d) for d in k.node.decorator_list)):
+            continue
+        for st in k.node.body:
+            name, val, ann = None, None, None
+            if isinstance(st, ast.Assign) and len(st.targets) == 1 and isinstance(st.targets[0], ast.Name):
+                name, val = st.targets[0].id, st.value
+            elif isinstance(st, ast.AnnAssign) and isinstance(st.target, ast.Name):
+                name, val, ann = st.target.id, st.value, st.annotation
+            if name is None:
+                continue
+            fcall = val if isinstance(val, ast.Call) else None
+            fkind = dotted_in_module(k.module, fcall.func) if fcall is not None else None
+            is_field_call = fkind in (_ATTRS_FIELD if family != "dataclass" else _DC_FIELD)
+            if ann is not None and "ClassVar" in ast.unparse(ann):
+                continue
+            if family == "dataclass":
+                if ann is None:
+                    continue
+            elif not (is_field_call or (auto_attribs and ann is not None)):
+                continue
+            if is_field_call:
+                found, v = const_kw(fcall, *(("eq", "cmp") if family != "dataclass" else ("compare",)))
+                if found and v is False:
+                    out.discard("self." + name)
+                    continue
+                if found and v is not True and v is not None:
+                    raise AnalysisError("field %s.%s has a custom comparison key; cannot be decided" % (k.name, name))
+            out.add("self." + name)
+    return out
+
+
+def generated_by(idx, ci, dec):
+    """Generated(..) when decorator `dec` of class ci belongs to the attrs / dataclasses families, None when it is known
+    not to touch the identity trio; AnalysisError for any other class decorator."""
+    call = dec if isinstance(dec, ast.Call) else None
+    name = dotted_in_module(ci.module, call.func if call is not None else dec)
+    if name in _HARMLESS_DECORATORS:
+        return None
+    family = "classic" if name in _ATTRS_CLASSIC else "define" if name in _ATTRS_DEFINE else "dataclass" if name in _DATACLASS else None
+    if family is None:
+        raise AnalysisError("class decorator `%s` on %s (a class of the node / capability families) is not known: whether it "
+                            "replaces __eq__/__ne__/__hash__ cannot be decided" % (ast.unparse(dec), ci.qual))
+    if call is not None and call.args:
+        raise AnalysisError("positional arguments in `%s` on %s: what the decorator generates cannot be decided" % (ast.unparse(dec), ci.qual))
+    found_eq, eq = const_kw(call, "eq")
+    if family != "dataclass" and not (found_eq and eq is not None):
+        found_cmp, cmp_ = const_kw(call, "cmp")
+        if found_cmp and cmp_ is not None:
+            found_eq, eq = True, cmp_
+    own = lambda n: n in ci.methods or n in ci.attrs
+    auto_detect = family == "define"
+    if family == "classic":
+        auto_detect = bool(const_kw(call, "auto_detect")[1])
+    elif family == "define":
+        fa, av = const_kw(call, "auto_detect")
+        auto_detect = av if fa else True
+    if not found_eq or eq is None:
+        eq = True
+        if family != "dataclass" and auto_detect and (own("__eq__") or own("__ne__")):
+            eq = False
+    eq = bool(eq)
+    writes_eq = eq and not (family == "dataclass" and own("__eq__"))
+    frozen = name.endswith(".frozen") or bool(const_kw(call, "frozen")[1])
+    fh, hv = const_kw(call, "unsafe_hash")
+    if family != "dataclass" and not (fh and hv is not None):
+        fh2, hv2 = const_kw(call, "hash")
+        if fh2:
+            fh, hv = fh2, hv2
+    if family == "dataclass":
+        if own("__hash__"):
+            hash_ = "keep"
+        elif hv:
+            hash_ = "gen"
+        else:
+            hash_ = ("gen" if frozen else "none") if eq else "keep"
+    else:
+        if hv is True:
+            hash_ = "gen"
+        elif fh and hv is False:
+            hash_ = "keep"
+        elif auto_detect and own("__hash__"):
+            hash_ = "keep"
+        else:
+            hash_ = ("gen" if frozen else "none") if eq else "keep"
+    if family == "dataclass":
+        auto_attribs = True
+    else:
+        fa, av = const_kw(call, "auto_attribs")
+        auto_attribs = bool(av) if fa and av is not None else (family == "define" or name == "attr.dataclass")
+    g = Generated(ci, dec, family, writes_eq, hash_, None)
+    g.auto_attribs = auto_attribs
+    return g
+
+
+def class_generated(idx, ci):
+    """The Generated(..) of class ci's decorators (None when no decorator writes comparison methods)."""
+    gens = [g for g in (generated_by(idx, ci, d) for d in ci.node.decorator_list) if g is not None]
+    if not gens:
+        return None
+    if len(gens) > 1:
+        raise AnalysisError("%s carries several attrs / dataclass decorators" % ci.qual)
+    g = gens[0]
+    if g.fields is None:
+        g.fields = generated_fields(idx, ci, g.family, g.auto_attribs)
+    return g
+
+
+def identity_fields(fn):
+    """'self.<x>' terms the value returned by the identity function (to_string / get_uri) is computed from."""
+    flow = FlowNorm(fn)
+    used = set()
+    for n in fn.cfg().find(is_return):
+        if n.ast.value is not None:
+            used |= terms_through_locals(flow, n, n.ast.value)
+    used.discard("CLASS")
+    return used
+
+
 def run(ctx: Context):
     idx = ctx.idx
     definers = sorted((ci for ci in idx.classes.values()
@@ -495,3 +680,64 @@ def run(ctx: Context):
                     reported.add((None, uc.qual))
                     r.violation(eq, eq.loc(), "%s has no path that returns a comparison when the operand is the %s object "
                                 "itself" % (short(eq), uc.name))
+
+    # -- 6. nothing but the package's own defs provides the identity trio -------
+    with ctx.rule("C43.6", "R6", "for every node / capability class, the first provider of __eq__, __ne__ and __hash__ along the MRO is "
+                  "a def of the package: no class decorator of the attrs / dataclasses families writes field-wise comparison "
+                  "methods over it (unless the compared fields are exactly those the cap string is computed from, and the class stays "
+                  "hashable), and no class-body assignment re-binds one of the three", expected=25) as r:
+        nodes, caps = node_classes(idx), cap_classes(idx)
+        if len(nodes) < 5 or len(caps) < 20:
+            raise AnchorVanished("only %d node and %d capability classes found" % (len(nodes), len(caps)))
+        fam = [(c, "node") for c in nodes] + [(c, "cap") for c in caps]
+        reported = set()
+        gen_cache = {}
+
+        def gen_of(k):
+            if k.qual not in gen_cache:
+                gen_cache[k.qual] = class_generated(idx, k)
+            return gen_cache[k.qual]
+        for ci, kind in fam:
+            r.site("%s %s" % (kind, ci.qual))
+            ident = ci.lookup("to_string" if kind == "cap" else "get_uri")
+            iname = "to_string()" if kind == "cap" else "get_uri()"
+            for meth in TRIO:
+                for k in ci.mro():
+                    g = gen_of(k)
+                    r.count(1)
+                    loc = "%s:%s" % (k.module.relpath, k.node.lineno)
+                    provides = g is not None and ((meth == "__eq__" and g.eq) or (meth == "__ne__" and g.ne)
+                                                  or (meth == "__hash__" and g.hash in ("gen", "none")))
+                    if provides:
+                        key = (k.qual, ci.qual, "unhashable" if (g.hash == "none" and meth == "__hash__") else "fields")
+                        if key in reported:
+                            break
+                        reported.add(key)
+                        if g.hash == "none" and meth == "__hash__":
+                            r.violation(k.qual, loc, "`@%s` on %s sets __hash__ = None (generated __eq__ without frozen / hash=True): "
+                                        "%s objects cannot be dict keys or set members" % (ast.unparse(g.dec), k.name, ci.name))
+                            break
+                        if ident is None:
+                            raise AnchorVanished("%s has no %s" % (ci.qual, iname))
+                        want = identity_fields(ident)
+                        if g.fields != want or not want:
+                            r.violation(k.qual, loc, "`@%s` on %s generates %s over the fields %s, which replace the string-based "
+                                        "methods %s would inherit; the cap string of %s (%s) is computed from %s: two %s objects for the "
+                                        "same cap string that differ in %s compare unequal / hash differently%s"
+                                        % (ast.unparse(g.dec), k.name, g.what(), sorted(g.fields), ci.name, ci.name, short(ident),
+                                           sorted(want), ci.name, sorted(g.fields - want) or "nothing",
+                                           ("; objects that differ only in %s compare equal" % sorted(want - g.fields)) if want - g.fields else ""))
+                        break
+                    if meth in k.methods:
+                        break
+                    if meth in k.attrs:
+                        v = k.attrs[meth][-1]
+                        t = idx.resolve_expr(k.module, v) if isinstance(v, (ast.Name, ast.Attribute)) else None
+                        if isinstance(t, FuncInfo) and t.name == meth and t.cls is not None and t.cls in k.mro():
+                            break       # `__hash__ = Base.__hash__`: the def of a base class, re-exported
+                        if (k.qual, meth) not in reported:
+                            reported.add((k.qual, meth))
+                            r.violation(k.qual + "." + meth, loc, "%s re-binds %s in its class body to `%s`: %s objects no longer use the "
+                                        "package's cap-string based %s (the rules above read the def this assignment hides)"
+                                        % (k.name, meth, ast.unparse(v), ci.name, meth))
+                        break
